@@ -83,7 +83,8 @@ func Match(seq Sequence, query Sequence) []Segment {
 		case 'n':
 			b.WriteString(".")
 		default:
-			b.WriteByte(c)
+			// Any other byte is a literal, never regular expression syntax.
+			b.WriteString(regexp.QuoteMeta(string(rune(c))))
 		}
 	}
 
